@@ -55,23 +55,26 @@ FUNCTIONS = [
     "unified_planning.io.anml_writer:_get_anml_name",
     "unified_planning.io.anml_writer:ANMLWriter._write_problem",
 ]
-BOUNDS = ("names from a fixed adversarial pool (about 110 names in 8 families of 9-13 names: case variants, suffix forms "
-          "_0/_1/_0_0 and initial-letter forms x_/o_/f_/a_/p_ that the writers' mangling produces for other names of the "
-          "family, PDDL and ANML keywords in three case forms, symbols, leading digits, non-ASCII, empty name) plus a sweep "
-          "of every keyword of both languages (three case forms, next to its own mangled form); quick: every ordered "
-          "selection of 3 distinct family names for the elements of one category (types flat and hierarchical, objects, "
-          "fluents, actions instantaneous and durative, parameters of one action and one fluent signature) and every "
-          "assignment of one family name to each of type/object/fluent/action/parameter (6-name sub-families); thorough: 4 "
-          "names per category, full families in the mixed shards, reader round trip on every path; one problem "
-          "shape (Boolean fluents, one or two actions referring to every fluent, parameter and object)")
+BOUNDS = ("names from a fixed adversarial pool (about 140 distinct names; 8 families of 12-15 names per element category: "
+          "case variants, the suffix forms _0/_1/_0_0 and the initial-letter forms x_/o_/f_/a_/p_ that the writers' mangling "
+          "produces for OTHER names of the family, PDDL and ANML keywords in several case forms and with trailing '_', symbols, "
+          "leading digits, non-ASCII, the empty name) plus a sweep of 103 keywords of both languages (three case forms, next to "
+          "an element that already carries the keyword's mangled form); quick: every ordered pair of every family and every "
+          "ordered triple of every family core (first 6 names) as the names of the elements of ONE category (types flat and "
+          "hierarchical, objects, fluents, actions instantaneous and durative, parameters of two actions and one fluent "
+          "signature), every assignment of one name of a 5-name sub-family to each of type/object/fluent/action/parameter, "
+          "the same with equal names across categories (environment flag error_used_name off, 4 names), reader round trip "
+          "for every single fluent name; thorough: every ordered 4-selection of every family, 7-name sub-families in the "
+          "mixed shards, both orders in the sweep, reader round trip on every pair of every family core; one problem shape "
+          "(Boolean fluents, one or two actions that refer to every fluent, parameter and one object, a goal on every fluent)")
 OUTSIDE = ("every name outside the pool (symbolic strings are out of reach of the engine: the universal 'for every name' is "
            "NOT claimed); more than 4 adversarial names at once; quantifier variables, HTN tasks/methods, agents, processes, "
            "events, timed effects, trajectory constraints (PDDL3 keywords), contingent problems; PDDLWriter's plan writer; "
            "constructor flags needs_requirements/rewrite_bool_assignments/empty_preconditions (they do not reach the naming code)")
 ASSUMPTIONS = [
     "engine 'direct': bounded exhaustive enumeration of the name pool through choice variables; solver role: none/low",
-    "the reader round trip of the ANML text uses the global environment (ANMLReader builds its fluents without passing "
-    "its environment on); only element counts of the re-read problem are used",
+    "the reader round trips read into the global environment (ANMLReader and the default PDDLReader pipeline build "
+    "their fluents without passing a non-global environment on); only element counts of the re-read problem are used",
     "model constructions that unified-planning itself rejects (duplicate names) prune the path",
 ]
 
@@ -123,7 +126,7 @@ def families(cat):
 def _families(i):
     return dict(
         case=["a", "A", "a_0", "A_0", "a_1", "a_0_0", "a_0_1", "Move", "move", "MOVE", "move_0", "Move_0"],
-        digit=["1a", "1A", f"{i}_1a", f"{i}_1a_0", "0", f"{i}_0", f"{i.upper()}_1a", f"{i}_1a_1", "_1a", f"{i}__1a", "1a_0",
+        digit=["1a", "1A", f"{i}_1a", f"{i}_1a_0", "0", f"{i}_0", f"{i.upper()}_1a", f"{i}_1a_1", "_1a", f"{i}__1a", "1-a",
                "x_1a" if i != "x" else "o_1a"],
         symbol=["a-b", "a_b", "a b", "a.b", "a_b_0", "A_b", "a?b", "A-B", "a_b_1", "a-b_0", "a__b", "a-"],
         pkw=["and", "AND", "and_", "and__0", "assign", "And", "AND_", "and__", "and_0", "and__1", "Assign", "assign_"],
@@ -485,9 +488,11 @@ def _check_anml(ctx, problem, el, roundtrip):
     ctx.witness("anml")
     tname, fname, aname, oname, pgroups = _anml_declared(ctx, text, problem, el)
 
-    def valid(n, what):
-        if ANML_IDENT.fullmatch(n) is None:
-            ctx.fail("anml:invalid-identifier:" + _classify(n, ANML_IDENT), f"{what}: emitted ANML name {n!r} is not an identifier of the ANML grammar")
+    def valid(n, what, src):
+        if ANML_IDENT.fullmatch(n) is None:  # sig: was the model's name kept verbatim or produced by the mangling; where is it wrong
+            how = "verbatim" if n == src else "mangled"
+            ctx.fail(f"anml:invalid-identifier:{how}:{_classify(n, ANML_IDENT)}",
+                     f"{what}: emitted ANML name {n!r} is not an identifier of the ANML grammar")
         if n in ANML_WORDS:
             ctx.fail("anml:keyword-emitted:" + n, f"{what}: emitted ANML name {n!r} is an ANML keyword")
 
@@ -495,14 +500,17 @@ def _check_anml(ctx, problem, el, roundtrip):
     for cat, m, xs in (("type", tname, problem.user_types), ("fluent", fname, problem.fluents), ("action", aname, problem.actions),
                        ("object", oname, problem.all_objects)):
         for x in xs:
-            valid(m[x], f"{cat} {x.name!r}")
+            valid(m[x], f"{cat} {x.name!r}", x.name)
             glob.append((m[x], f"{cat} {x.name!r}"))
     for g, ns in zip(el["pgroups"], pgroups):
         for q, n in zip(g, ns):
-            valid(n, f"parameter {q.name!r}")
+            valid(n, f"parameter {q.name!r}", q.name)
     seen = {}
     for n, what in glob:
-        ctx.check(n not in seen, "anml:name-clash", f"{what} and {seen.get(n)} are both emitted as {n!r} in ANML's global scope")
+        if n in seen:  # two sigs: elements that carry the SAME name in the model (legal when error_used_name is off) / others
+            same = what.split(" ", 1)[1] == seen[n].split(" ", 1)[1]
+            ctx.fail("anml:name-clash:equal-source-names" if same else "anml:name-clash",
+                     f"{what} and {seen[n]} are both emitted as {n!r} in ANML's global scope")
         seen[n] = what
     for g, ns in zip(el["pgroups"], pgroups):
         ctx.check(len(set(ns)) == len(ns), "anml:param-clash", f"parameters {[q.name for q in g]} of one declaration are emitted as {ns}")
@@ -626,13 +634,13 @@ def shards(tier, seed):
     fams = list(FAMILY_IDS)
 
     def add(name, fn, budget=None, **kw):
-        out.append(dict(name=name, fn=fn, kwargs=kw, budget=budget or (150 if quick else 900), per_path=10, engine="direct"))
+        out.append(dict(name=name, fn=fn, kwargs=kw, budget=budget or (400 if quick else 900), per_path=10, engine="direct"))
 
-    variants = [("types", dict(hier="both")), ("objects", {}), ("fluents", {}), ("actions", {}), ("actions", dict(durative=True)),
+    variants = [("types", {}), ("types", dict(hier=True)), ("objects", {}), ("fluents", {}), ("actions", {}), ("actions", dict(durative=True)),
                 ("params", {}), ("params", dict(durative=True))]
     for lang in ("pddl", "anml"):
         for cat, v in variants:
-            tag = "-durative" if v.get("durative") else ""
+            tag = "-durative" if v.get("durative") else "-hier" if v.get("hier") else ""
             if quick:  # all ordered pairs of every family + all ordered triples of every family core
                 add(f"{lang}-{cat}{tag}", "h_category", lang=lang, cat=cat, fams=fams, plans=[[2, 0], [3, 1]], **v)
             else:      # all ordered 4-selections of every family; reader round trip on the pairs of every core
